@@ -56,6 +56,8 @@ class Runtime:
         self.ch = chooser
         self.log = []  # monitored events
         self.reader_k = None  # None = main/producer view of the flag
+        self.on_read = None
+        self.window_policy = None
         self.reads = 0
         self.worker = None  # current virtual worker id (None = main)
         self.events = []
@@ -100,7 +102,10 @@ class VEvent:
         if rt is None or rt.reader_k is None:
             return self.flag
         rt.reads += 1
-        return rt.reads > rt.reader_k
+        res = rt.reads > rt.reader_k
+        if rt.on_read is not None:
+            rt.on_read(rt.reads)
+        return res
 
 
 class VManager:
@@ -448,7 +453,7 @@ def fingerprint(vi):
     sorts = tuple(sorted((GEN_FRESH.sub('x#__fresh', str(k)), str(v))
                          for k, v in cache.items()
                          if not isinstance(k, int)))
-    memo = (memo, tuple(pend), hash(sorts))
+    memo = (memo, tuple(pend), hash(sorts), rt.window_policy)
     return hash((main, vi.seq, vi.done, vi.flag(),
                  tuple(q[1] for q in vi.Q),
                  tuple((e['seq'], e['after_T'], e['worker']) for e in vi.R),
@@ -716,20 +721,64 @@ def install():
     from ddsmt import smtlib
     orig_reset = smtlib.reset_information
 
+    TABLES = [n for n in vars(smtlib) if n.startswith('__') and
+              not n.endswith('__') and
+              isinstance(getattr(smtlib, n), (dict, set))]
+    # generator positions while the tables are empty: s complete steps that
+    # start inside the window (they see the abort flag as it is), or a step
+    # that was under way when the main thread got here: its first K reads of
+    # the abort flag happened before the flag was set, with the old tables,
+    # and it resumes right after the K-th read with the empty tables
+    WINDOW = [('steps', 0), ('steps', 1), ('steps', 3), ('steps', 10),
+              ('steps', 40)] + [('mid', k) for k in range(1, 13)]
+
     def reset_information():
-        orig_reset()
         rt = Runtime.current
         vi = rt.active_iter if rt is not None else None
-        if vi is not None and not vi.in_pull and not vi.done and \
-                rt.worker is None:
-            # how far the generator gets while the tables are empty
-            steps = (0, 1, 3, 10, 40)
-            c = rt.choose(('preempt-reset', ), len(steps), 0, 'sched')
-            for _ in range(steps[c]):
+        live = vi is not None and not vi.in_pull and not vi.done and \
+            rt.worker is None
+        old = {n: getattr(smtlib, n) for n in TABLES} if live else None
+        orig_reset()
+        if not live:
+            return
+        if rt.window_policy is None:
+            # how the two threads are scheduled relative to each other in
+            # such windows is a property of the machine: one deviation buys
+            # a policy that then holds for every window of the run
+            rt.window_policy = rt.choose(('window-policy', ), len(WINDOW), 0,
+                                         'sched')
+        c = rt.choose(('preempt-reset', ), len(WINDOW), rt.window_policy,
+                      'sched')
+        kind, arg = WINDOW[c]
+        if kind == 'steps':
+            for _ in range(arg):
                 if vi.done:
                     break
                 rt.stat('producer_steps_during_table_rebuild')
                 vi.pull()
+            return
+        rt.stat('producer_step_under_way_during_table_rebuild')
+        new = {n: getattr(smtlib, n) for n in TABLES}
+        for n, v in old.items():
+            setattr(smtlib, n, v)
+        saved = (rt.reader_k, rt.reads, rt.on_read)
+        swapped = []
+
+        def on_read(reads):
+            if reads == arg and not swapped:
+                swapped.append(1)
+                for n, v in new.items():
+                    setattr(smtlib, n, v)
+
+        rt.reader_k, rt.reads, rt.on_read = arg, 0, on_read
+        try:
+            while not vi.done and rt.reads <= arg:
+                vi.pull()
+        finally:
+            rt.reader_k, rt.reads, rt.on_read = saved
+            if not swapped:
+                for n, v in new.items():
+                    setattr(smtlib, n, v)
 
     smtlib.reset_information = reset_information
 
@@ -855,11 +904,14 @@ class Exec:
 
 
 _WORKDIR = None
+_WORKDIR_PID = None
 
 
 def workdir():
-    global _WORKDIR
-    if _WORKDIR is None or not os.path.isdir(_WORKDIR):
+    global _WORKDIR, _WORKDIR_PID
+    if _WORKDIR is None or _WORKDIR_PID != os.getpid() or \
+            not os.path.isdir(_WORKDIR):
+        _WORKDIR_PID = os.getpid()
         _WORKDIR = tempfile.mkdtemp(prefix=f'ddv-sched-{os.getpid()}-',
                                     dir=common.scratch_root())
         import atexit
